@@ -56,15 +56,19 @@ fn emit_choice(
         // line only starts after the line break that ends the selected text.
         let inline_divert =
             choice.body_divert_is_inline && matches!(choice.body.as_slice(), [Node::Divert(_)]);
+        let mut tags_already_emitted = false;
 
         if choice.has_choice_only_content && !choice.has_start_content && inline_divert {
             branch_nodes.extend(tokenize_inline_content(&format!(
                 " {} ",
                 selected_text.trim_end()
             ))?);
+            // the line's tags belong before the divert that leaves the line
+            branch_nodes.extend(choice.selected_tags.iter().cloned().map(Node::Tag));
             branch_nodes.extend(choice.body.clone());
             branch_nodes.push(Node::Newline);
             body_already_emitted = true;
+            tags_already_emitted = true;
         } else if let Some((text, target)) = recovered_inline_divert {
             if !text.is_empty() {
                 branch_nodes.extend(tokenize_inline_content(&text)?);
@@ -80,7 +84,9 @@ fn emit_choice(
                 branch_nodes.push(Node::Text(" ".to_owned()));
             }
         }
-        branch_nodes.extend(choice.selected_tags.iter().cloned().map(Node::Tag));
+        if !tags_already_emitted {
+            branch_nodes.extend(choice.selected_tags.iter().cloned().map(Node::Tag));
+        }
         if !body_already_emitted {
             // Skip the auto-newline for terminal diverts, and also for inline diverts that are
             // authored after inline selected text on the same source line (the selected text keeps
@@ -89,9 +95,7 @@ fn emit_choice(
                 choice.body.as_slice(),
                 [Node::Divert(d)] if d.target == "END" || d.target == "DONE"
             );
-            let body_is_inline_divert = inline_divert
-                || (matches!(choice.body.as_slice(), [Node::Divert(_)])
-                    && selected_text.ends_with(char::is_whitespace));
+            let body_is_inline_divert = inline_divert;
             if !body_is_terminal_divert && !body_is_inline_divert {
                 branch_nodes.push(Node::Newline);
             }
